@@ -13,7 +13,7 @@ import struct
 import z3
 
 from . import spec as _spec
-from .interp import (Closure, BoundModel, PyRaise, Exec)
+from .interp import (Closure, BoundModel, PyRaise, Exec, Infeasible)
 from .sbytes import SBytes, HexStr, ESeg, ASeg, format_hex, zt, norm, wrap
 from .sym import (Sym, SInt, SBool, SFloat, SStr, SAny, SymLeak, Unsupported, is_sym, mk_int, mk_bool, iterm, bterm,
                   fterm, is_intlike, Flt, StrS, F_OF_INT, F_DIV, F_MUL, F_ADD, F_SUB, F_NEG, F_ABS, F_ROUND, F_ROUNDN,
@@ -631,7 +631,107 @@ def _sint_bit_length(ex, v):
     raise Unsupported("bit_length of an integer of more than 64 bits")
 
 
+def _sb_lstrip(ex, b, chars=None):
+    """bytes.lstrip(chars): drops leading bytes while they are members of `chars` (a set of byte values, not a prefix);
+    the number dropped is decided by forking, up to 16"""
+    if chars is None:
+        chars = b" \t\n\r\x0b\x0c"
+    if is_sym(chars):
+        raise Unsupported("lstrip with symbolic character set")
+    members = sorted(set(bytes(chars)))
+    n = b.length()
+    k = 0
+    while True:
+        if k > 16:
+            raise Unsupported("lstrip of more than 16 leading bytes")
+        at_end = (k >= n) if isinstance(n, int) else ex.branch(zt(n) <= k, tag="lstrip.end")
+        if at_end:
+            break
+        e = b.elem_at(ex, k)
+        if isinstance(e, int):
+            if e not in members:
+                break
+        elif not ex.branch(z3.Or(*[iterm(e) == m for m in members]) if members else z3.BoolVal(False), tag="lstrip.member"):
+            break
+        k += 1
+    return b.slice(ex, k, None)
+
+
+def _sb_affix(ex, b, affix, start):
+    if is_sym(affix):
+        raise Unsupported("startswith / endswith with a symbolic affix")
+    if isinstance(affix, tuple):
+        rs = [_sb_affix(ex, b, a, start) for a in affix]
+        if any(r is True for r in rs):
+            return True
+        ts = [r.t for r in rs if not isinstance(r, bool)]
+        return mk_bool(z3.Or(*ts)) if ts else False
+    affix = bytes(affix)
+    k = len(affix)
+    if k == 0:
+        return True
+    n = b.length()
+    if isinstance(n, int) and n < k:
+        return False
+    conj = [] if isinstance(n, int) else [zt(n) >= k]
+    for i, c in enumerate(affix):
+        idx = i if start else (n - k + i if isinstance(n, int) else norm(zt(n) - k + i))
+        e = b.elem_at(ex, idx)
+        if isinstance(e, int):
+            if e != c:
+                return False
+        else:
+            conj.append(iterm(e) == c)
+    return mk_bool(z3.And(*conj)) if conj else True
+
+
+def _sb_count(ex, b, x, *rest):
+    if rest or is_sym(x):
+        raise Unsupported("bytes.count with bounds or a symbolic argument")
+    if isinstance(x, (bytes, bytearray)):
+        if len(x) != 1:
+            raise Unsupported("bytes.count of a multi-byte pattern")
+        x = x[0]
+    n = b.length()
+    if not isinstance(n, int):
+        raise Unsupported("bytes.count on a byte string of symbolic length")
+    total, terms = 0, []
+    for i in range(n):
+        e = b.elem_at(ex, i)
+        if isinstance(e, int):
+            total += int(e == x)
+        else:
+            terms.append(z3.If(iterm(e) == x, 1, 0))
+    return mk_int(z3.IntVal(total) + z3.Sum(*terms)) if terms else total
+
+
+def _sb_just(ex, b, width, fill=b" ", left=True):
+    if is_sym(width) or is_sym(fill):
+        raise Unsupported("ljust / rjust with symbolic width or fill")
+    n = b.length()
+    if not isinstance(n, int):
+        if ex.branch(zt(n) >= width, tag="just.long"):
+            return b
+        for k in range(width):
+            if ex.branch(zt(n) == k, tag="just.len"):
+                n = k
+                break
+        else:
+            raise Infeasible()
+        b = b.slice(ex, 0, n)
+    if n >= width:
+        return b
+    pad = SBytes.of(bytes(fill) * (width - n))
+    return b.concat(pad) if left else pad.concat(b)
+
+
 SYM_METHODS = {
+    (SBytes, "startswith"): lambda ex, b, a, *r: _sb_affix(ex, b, a, True),
+    (SBytes, "endswith"): lambda ex, b, a, *r: _sb_affix(ex, b, a, False),
+    (SBytes, "count"): _sb_count,
+    (SBytes, "ljust"): lambda ex, b, w, f=b" ": _sb_just(ex, b, w, f, True),
+    (SBytes, "rjust"): lambda ex, b, w, f=b" ": _sb_just(ex, b, w, f, False),
+    (SBytes, "lstrip"): _sb_lstrip,
     (SInt, "bit_length"): _sint_bit_length,
     (SBytes, "hex"): _sb_hex,
     (SBytes, "decode"): _sb_decode,
